@@ -228,6 +228,9 @@ def run(ck):
     ck.rule("REFILL", "the underlying reader (which reports end of data) is consulted only after the method established that the local buffer cannot "
                       "serve the request: buffered < requested (strictly), or the local buffer is empty")
     refill_rule(ck, prog, ra_methods)
+    ck.rule("AMT", "every copy out of the local buffer is followed on all accepting paths by `pos += <the copied count>`, every copy out of the "
+                   "reader's buffer by `consume(<the copied count>)` (the same value, not merely a value of the same kind)")
+    amount_rule(ck, prog, ra_methods)
     controls(ck, prog)
 
 
@@ -361,9 +364,9 @@ def eof_rule(ck, prog, ra_methods):
         just = justified_edges(f)
         for b, i, what in sites:
             n_sites += 1
-            # the site must be unreachable once the justified edges are removed
-            r = reach(f, [(0, S)], avoid=frozenset(just))
-            ok = (b, S) not in r
+            # the site must be unreachable once the justified EDGES are removed (an edge, not its target block: `eof || short_chunk`
+            # reaches the same error block through a second, unjustified edge)
+            ok = b not in _reach_blocks_avoiding_edges(f, just)
             if f.kind == "closure":
                 # closures mapping an io::Error (map_err): the error kind was observed
                 ok = ok or "ErrorKind" in " ".join(l["ty"] for l in f.locals) or "std::io::error::Error" in " ".join(l["ty"] for l in f.locals)
@@ -455,11 +458,106 @@ def refill_rule(ck, prog, ra_methods):
 
 
 FLIPS = {"<": ">", "<=": ">=", ">": "<", ">=": "<=", "==": "==", "!=": "!="}
+READER_VIEWS = ("ReadAdapter::reader_buffer", "ReadAdapter::non_empty_reader_buffer_mut", "ReadAdapter::non_empty_reader_buffer",
+                "BufRead::fill_buf", "BufReader::buffer")
+
+
+def _value_root(f, op, depth=0):
+    """identity of the value an operand carries: a constant, or the statement that computed it (copies and moves are followed)"""
+    c = op.get("const")
+    if c is not None:
+        return ("const", c.get("scalar"), c.get("tyconst"), c.get("def"))
+    p = op_place(op)
+    if p is None or p.get("p") or depth > 8:
+        return ("place", json_key(p))
+    d = single_def(f, p["l"])
+    if d is None:
+        return ("local", p["l"])
+    b, i, st = d
+    if i != "T" and st["k"] == "assign" and st["rv"]["k"] == "use":
+        return _value_root(f, st["rv"]["a"], depth + 1)
+    return ("def", b, i)
+
+
+def json_key(x):
+    import json
+    return json.dumps(x, sort_keys=True)
+
+
+def _pos_increments(f):
+    """[(block, index, amount operand)] for every `self.pos = self.pos + X`"""
+    res = []
+    for b, i, st in field_stores(f, RA, "pos"):
+        rv = st["rv"]
+        if rv["k"] != "use":
+            continue
+        p = op_place(rv["a"])
+        if p is None:
+            continue
+        d = single_def(f, p["l"])
+        if d is None or d[1] == "T":
+            continue
+        drv = d[2]["rv"]
+        if drv["k"] == "bin" and drv["op"] in ("Add", "AddWithOverflow"):
+            for x, y in ((drv["a"], drv["b"]), (drv["b"], drv["a"])):
+                px = op_place(x)
+                if px is not None and any(isinstance(e, dict) and e.get("n") == "pos" for e in px.get("p", [])):
+                    res.append((b, i, y))
+    return res
+
+
+def amount_rule(ck, prog, ra_methods):
+    n = 0
+    for f in ra_methods:
+        g = flow(f)
+        copies = [(b, t) for b, t in f.calls() if (callee_name(t) or "").endswith(("ptr::copy_nonoverlapping", "intrinsics::copy_nonoverlapping"))]
+        if not copies:
+            continue
+        incs = _pos_increments(f)
+        cons = [(b, t["args"][1]) for b, t in f.calls() if (callee_name(t) or "").endswith("BufRead::consume") and len(t["args"]) > 1]
+        acc = [(x, T) for x, blk in enumerate(f.blocks) if blk["t"]["k"] == "return"]
+        ordinal = 0
+        for b, t in copies:
+            w = g.walk(ops=[t["args"][0]], at=(b, T), through=lambda tt: not (callee_name(tt) or "").endswith(LOCAL_VIEWS + READER_VIEWS))
+            names = g.callee_names_in(w)
+            from_local = any(x.endswith(LOCAL_VIEWS) for x in names)
+            from_reader = any(x.endswith(READER_VIEWS) for x in names)
+            if from_local == from_reader:
+                continue  # compaction inside the spill buffer etc.: not a copy out to the caller
+            ordinal += 1
+            n += 1
+            want = _value_root(f, t["args"][2])
+            if from_local:
+                match = [(bb, ii) for bb, ii, amt in incs if _value_root(f, amt) == want]
+                kind = "pos += count"
+            else:
+                match = [(bb, T) for bb, amt in cons if _value_root(f, amt) == want]
+                kind = "consume(count)"
+            ok = bool(match) and must_between(f, [(b, T)], [(bb, T if ii == T else S) for bb, ii in match], acc)[0]
+            ck.ob("AMT", f"{f.nname.split('::')[-1]}:copy#{ordinal}:{'local' if from_local else 'reader'}", ok,
+                  f"{f.nname.split('::')[-1]}: the {'local-buffer' if from_local else 'reader-buffer'} copy is followed on every accepting path by "
+                  f"`{kind}` with exactly the copied count", loc=f.loc(b, T),
+                  detail=None if ok else f"{len(match)} advance(s) carry the copied count; amounts seen: "
+                                         f"{[_value_root(f, a) for _, _, a in incs] if from_local else [_value_root(f, a) for _, a in cons]} vs count {want}")
+    ck.floor("copies out of ReadAdapter buffers", n, 6)
+
+
+def _reach_blocks_avoiding_edges(f, edges):
+    seen, st = {0}, [0]
+    while st:
+        x = st.pop()
+        for y in f.succ[x]:
+            if (x, y) in edges and sum(1 for z in f.succ[x] if z == y) == 1:
+                continue
+            if y not in seen:
+                seen.add(y)
+                st.append(y)
+    return seen
 
 
 def justified_edges(f):
-    """Nodes entered only under an observed end of data: true edge of is_empty() on a fill_buf result, Err side of a
-    result originating from the reader, true edge of a test of guaranteed_eof."""
+    """CFG edges (block, successor) taken only under an observed end of data: true edge of is_empty() on a fill_buf result, Err side
+    of a result originating from the reader, true edge of a test of guaranteed_eof."""
     g = flow(f)
     res = set()
     for b, blk in enumerate(f.blocks):
@@ -480,14 +578,14 @@ def justified_edges(f):
                 w = g.walk(ops=[c.call["args"][0]], at=c.node)
                 if any(n.endswith("BufRead::fill_buf") for n in g.callee_names_in(w)):
                     for tb in (false_targets if c.neg else true_targets):
-                        res.add((tb, S))
+                        res.add((b, tb))
             if cn.endswith(("Result::is_ok", "Result::is_err")):
                 w = g.walk(ops=[c.call["args"][0]], at=c.node)
                 names = g.callee_names_in(w)
                 if any(n.endswith(("non_empty_reader_buffer_mut", "non_empty_reader_buffer", "BufRead::fill_buf")) for n in names):
                     err_true = cn.endswith("is_err") != c.neg
                     for tb in (true_targets if err_true else false_targets):
-                        res.add((tb, S))
+                        res.add((b, tb))
         elif c.kind == "unknown" or c.kind == "cmp":
             pass
         # test of the guaranteed_eof flag itself
@@ -498,7 +596,7 @@ def justified_edges(f):
                 p = op_place(sd[2]["rv"]["a"])
                 if p and any(isinstance(e, dict) and e.get("n") == "guaranteed_eof" for e in p.get("p", [])):
                     for tb in true_targets:
-                        res.add((tb, S))
+                        res.add((b, tb))
     return res
 
 
